@@ -16,7 +16,7 @@ POWERSHELL_BYTES_TYPE = "powershell.bytes"
 def find_powershell_bytes(data: bytes) -> list[Node]:
     def decode_byte(byte: bytes) -> int:
         stripped = byte.strip()
-        return int(stripped.decode(), 16 if stripped.startswith(b"0x") else 10)
+        return int(stripped.decode(), 16 if stripped.lower().startswith(b"0x") else 10)
 
     out = []
     for match in re.finditer(POWERSHELL_BYTES_RE, data):
